@@ -279,7 +279,9 @@ def job_setters(kind, which):
         if not before_occs_none:
             ctx.prove(f"{target}::post.other-spin-unchanged", same(read(interp, obj, other), before_other))
 
-    return verify(target, setup, post, call=lambda *a: None, max_paths=4000)
+    cfg = Config()
+    cfg.modifies_args = True  # the setter's purpose is to change the object's own occupation array
+    return verify(target, setup, post, config=cfg, call=lambda *a: None, max_paths=4000)
 
 
 def job_assign(kind, name):
